@@ -123,8 +123,9 @@ impl ConnectionHandle {
     ) -> Result<(), SubstreamError> {
         match &self.connection {
             ConnectionType::Active(active) => active.clone(),
-            ConnectionType::Inactive(inactive) =>
-                inactive.upgrade().ok_or(SubstreamError::ConnectionClosed)?,
+            ConnectionType::Inactive(inactive) => {
+                inactive.upgrade().ok_or(SubstreamError::ConnectionClosed)?
+            }
         }
         .try_send(ProtocolCommand::OpenSubstream {
             protocol: protocol.clone(),
@@ -144,8 +145,9 @@ impl ConnectionHandle {
     pub fn force_close(&mut self) -> crate::Result<()> {
         match &self.connection {
             ConnectionType::Active(active) => active.clone(),
-            ConnectionType::Inactive(inactive) =>
-                inactive.upgrade().ok_or(Error::ConnectionClosed)?,
+            ConnectionType::Inactive(inactive) => {
+                inactive.upgrade().ok_or(Error::ConnectionClosed)?
+            }
         }
         .try_send(ProtocolCommand::ForceClose)
         .map_err(|error| match error {
